@@ -249,6 +249,16 @@ def streams(rng, tier):
         for c in rng.sample(cand, min(len(cand), 150 if not thorough else 1500)):
             made.append(dict(c, origin=rng.choice(["left", "full"])))
     out.append(("join-made", made))
+    # the same cases on operands that reached their contents by in-place writes: promoted in place (born one step down the
+    # ladder), or object vectors whose None were assigned after construction
+    made = []
+    for name, cases in out[:-2]:
+        cand = [c for c in cases if c.get("op") in ("bin", "un", "bc") and "writes" not in c
+                and len(c.get("a") or c.get("vals") or []) >= 2]
+        for c in rng.sample(cand, min(len(cand), 200 if not thorough else 2000)):
+            # broadcast methods are the element class's: an object vector has none (only arithmetic is asked of it)
+            made.append(dict(c, origin="promoted" if c["op"] == "bc" else rng.choice(["promoted", "promoted", "objnone"])))
+    out.append(("write-made", made))
     return [(name, _dedupe(cases)) for name, cases in out]
 
 
@@ -404,8 +414,58 @@ def _via_join(vals, adt, how):
 _KEEP = []
 
 
+def _via_writes(vals, adt, how):
+    """a vector holding vals that got there by in-place writes.
+    "promoted": born one step down the ladder (floats from ints, ints from bools, complex from floats, datetimes from
+                dates), every cell then written (the first write promotes the vector in place);
+    "objnone":  an object-dtype vector born without None, the None then assigned in place."""
+    import datetime as dt
+    from serif import Vector
+    n = len(vals)
+    live = [x for x in vals if x is not None]
+    if not live or n < 2:
+        return None
+    try:
+        if how == "promoted":
+            cls = {type(x) for x in live}
+            if cls == {float}:
+                born = [None if x is None else 7 for x in vals]
+            elif cls == {int}:
+                born = [None if x is None else True for x in vals]
+            elif cls == {complex}:
+                born = [None if x is None else 0.5 for x in vals]
+            elif cls == {dt.datetime}:
+                born = [None if x is None else dt.date(2020, 2, 2) for x in vals]
+            else:
+                return None
+            v = Vector(born)
+            for i, x in enumerate(vals):
+                if x is not None:
+                    v[i] = x
+        else:
+            if len(live) == n:
+                return None
+            stand = live[0]
+            v = Vector([stand if x is None else x for x in vals]).to_object()
+            for i, x in enumerate(vals):
+                if x is None:
+                    v[i] = None
+        got = list(v._underlying)
+        if len(got) != n or any(type(x) is not type(y) or (x is not None and x != y and not (x != x and y != y))
+                                for x, y in zip(got, vals)):
+            return None
+        ORIGIN_REALISED[0] += 1
+        return v
+    except Exception:                                        # noqa: BLE001
+        return None
+
+
 def _mkvec(vals, adt):
-    if _ORIGIN is not None:
+    if _ORIGIN in ("promoted", "objnone"):
+        v = _via_writes(list(vals), adt, _ORIGIN)
+        if v is not None:
+            return v
+    elif _ORIGIN is not None:
         v = _via_join(list(vals), adt, _ORIGIN)
         if v is not None:
             return v
@@ -920,7 +980,7 @@ def nontrivial(case, obs):
 
 def describe(case, obs, stream):
     if "origin" in case:
-        return ["join-made:" + (case["origin"] + " join column" if obs.get("origin_ok") else "fell back to a fresh vector")]
+        return ["origin:" + (case["origin"] if obs.get("origin_ok") else "fell back to a fresh vector")]
     if "lived" in case:
         return ["lived-in:" + ("history realised" if obs.get("lived_ok") else "fell back to a fresh vector")]
     if "skip" in obs:
